@@ -3,6 +3,7 @@ import Sgz.Model.Version
 import Sgz.Model.Config
 import Sgz.Model.Pipeline
 import Sgz.Model.Writer
+import Sgz.Model.IO
 /-!
 Line-protocol driver over the executable model (`Sgz/Model`, Mathlib-free).  One request per line, one answer per
 line.  The Python harness sends the same request to the real implementation and diffs canonical answers.
@@ -33,39 +34,65 @@ def mkGeo (xs : List Int) : Option Geo :=
     some { n0 := n0.toNat, n1 := n1.toNat, n2 := n2.toNat, b0 := b0.toNat, b1 := b1.toNat, b2 := b2.toNat, u := u.toNat }
   | _ => none
 
-def handleRead (ws : List String) : String :=
+def parseRead (ws : List String) : Option R :=
   match ints (ws.take 7) with
-  | none => "bad-op"
+  | none => none
   | some gs =>
     match mkGeo gs with
-    | none => "bad-op"
+    | none => none
     | some g =>
       match ws.drop 7 with
-      | ["il", k] => match k.toInt? with | some k => showR (Reader.readInline g k) | none => "bad-op"
-      | ["xl", k] => match k.toInt? with | some k => showR (Reader.readCrossline g k) | none => "bad-op"
-      | ["zs", k] => match k.toInt? with | some k => showR (Reader.readZslice g k) | none => "bad-op"
-      | ["vol"] => showR (Reader.readVolume g)
+      | ["il", k] => k.toInt?.map (Reader.readInline g)
+      | ["xl", k] => k.toInt?.map (Reader.readCrossline g)
+      | ["zs", k] => k.toInt?.map (Reader.readZslice g)
+      | ["vol"] => some (Reader.readVolume g)
       | "sub" :: rest =>
         match ints rest with
-        | some [i0, i1, x0, x1, z0, z1] => showR (Reader.readSubvolume g false i0 i1 x0 x1 z0 z1)
-        | _ => "bad-op"
+        | some [i0, i1, x0, x1, z0, z1] => some (Reader.readSubvolume g false i0 i1 x0 x1 z0 z1)
+        | _ => none
       | "subp" :: rest =>
         match ints rest with
-        | some [t0, t1, z0, z1] => showR (Reader.readSubplane g false t0 t1 z0 z1)
-        | _ => "bad-op"
+        | some [t0, t1, z0, z1] => some (Reader.readSubplane g false t0 t1 z0 z1)
+        | _ => none
       | "tr" :: rest =>
         match ints rest with
-        | some [t, a, b] => showR (Reader.getTrace g t a b)
-        | _ => "bad-op"
+        | some [t, a, b] => some (Reader.getTrace g t a b)
+        | _ => none
       | ["cd", c, lo, hi, s, e] =>
         match c.toInt?, optPair lo hi, optPair s e with
-        | some c, some rng, some win => showR (Reader.readCorrelatedDiagonal g c rng win)
-        | _, _, _ => "bad-op"
+        | some c, some rng, some win => some (Reader.readCorrelatedDiagonal g c rng win)
+        | _, _, _ => none
       | ["ad", c, lo, hi, s, e] =>
         match c.toInt?, optPair lo hi, optPair s e with
-        | some c, some rng, some win => showR (Reader.readAnticorrelatedDiagonal g c rng win)
-        | _, _, _ => "bad-op"
-      | _ => "bad-op"
+        | some c, some rng, some win => some (Reader.readAnticorrelatedDiagonal g c rng win)
+        | _, _, _ => none
+      | _ => none
+
+def handleRead (ws : List String) : String :=
+  match parseRead ws with
+  | some r => showR r
+  | none => "bad-op"
+
+/-- `io trunc DS L <read request>`: the call on a file cut at byte length L (data section starting at DS);
+`io fault K <read request>`: the call when its K-th range read fails.  Answers: `err <class>` (refused before any
+read), `raise` (I/O error), `value` (the true result) -/
+def handleIO (ws : List String) : String :=
+  match ws with
+  | "trunc" :: ds :: l :: rest =>
+    match ds.toNat?, l.toNat?, parseRead rest with
+    | some ds, some l, some r =>
+      match r with
+      | .error e => s!"err {e}"
+      | .ok o => if truncRaises ds l o then "raise" else "value"
+    | _, _, _ => "bad-op"
+  | "fault" :: k :: rest =>
+    match k.toNat?, parseRead rest with
+    | some k, some r =>
+      match r with
+      | .error e => s!"err {e}"
+      | .ok o => if faultRaises k o then "raise" else "value"
+    | _, _ => "bad-op"
+  | _ => "bad-op"
 
 def b2s (b : Bool) : String := if b then "1" else "0"
 
@@ -167,6 +194,7 @@ def handle (line : String) : String :=
   | "cfg" :: rest => handleCfg rest
   | "pipe" :: rest => handlePipe rest
   | "writer" :: rest => handleWriter rest
+  | "io" :: rest => handleIO rest
   | "hashfeed" :: rest => handleHashFeed rest
   | ["ping"] => "pong"
   | _ => "bad-op"
